@@ -428,7 +428,8 @@ func execC20(t *testing.T, raw json.RawMessage) *sim.Outcome {
 						}
 						setf(&rq.reply, s.Stamp())
 						sent1, _ := cc.Sent()
-						setb(&rq.taken, len(sent1) > nSent0 && cc.PendingOut() == 0)
+						whole := len(sent1)-nSent0 >= 4 && len(sent1)-nSent0 == 4+int(uint32(sent1[nSent0])<<24|uint32(sent1[nSent0+1])<<16|uint32(sent1[nSent0+2])<<8|uint32(sent1[nSent0+3]))
+						setb(&rq.taken, whole && cc.PendingOut() == 0) // (the whole frame was written and read)
 					}
 				}
 				cc.Close()
@@ -611,7 +612,9 @@ func execC20(t *testing.T, raw json.RawMessage) *sim.Outcome {
 			// released during the run: there must be a request with this code that was in flight after the waiter registered
 			ok := false
 			for _, r := range st.reqs {
-				if r.code == w.code && r.own != w && r.send < w.ret && (r.reply == 0 || r.reply > from) {
+				// (a request that the server had not read yet when the client's call returned - a client that gave up on
+				// it - may be received at any later moment)
+				if r.code == w.code && r.own != w && r.send < w.ret && (r.reply == 0 || r.reply > from || (r.own == nil && !r.taken)) {
 					ok = true
 				}
 			}
